@@ -1,36 +1,32 @@
 package main
 
-// An in-memory file system for the whole-file helpers the metadata code
-// uses: os/ioutil ReadFile, WriteFile, Rename, MkdirAll, Remove(All),
-// IsNotExist. Paths must be concrete; contents are ordinary (possibly
-// symbolic) byte objects. Each call is one completed file-system operation;
-// nothing is lost or reordered (clean-restart model, not the crash model).
+// An in-memory file system for the file helpers the metadata and log code
+// uses. Paths must be concrete; contents are ordinary (possibly symbolic)
+// bytes in a fixed-capacity object per file ("inode"), written in place, so
+// that a slice obtained through syscall.Mmap keeps aliasing the file, also
+// across a rename. Handles carry a position and the O_APPEND flag.
+// Each call is one completed file-system operation; nothing is lost or
+// reordered (clean-restart model; crash models are built in the harnesses on
+// top of recorded write boundaries).
 
 import (
+	"go/types"
 	"strings"
 
 	"golang.org/x/tools/go/ssa"
 )
+
+const vfsCap = 8192
 
 type vfsFile struct {
 	obj *Object
 	n   int64
 }
 
-// open handles: the *os.File object -> path
-var vfsHandleLabel = "vfs-handle:"
-
-func (ex *Exec) vfsHandlePath(v Value) (string, bool) {
-	p, ok := v.(Ptr)
-	if !ok || p.obj == nil || !strings.HasPrefix(p.obj.label, vfsHandleLabel) {
-		return "", false
-	}
-	return p.obj.label[len(vfsHandleLabel):], true
-}
-
-func (ex *Exec) vfsOpen(name string) Value {
-	o := ex.newObject(64, vfsHandleLabel+name)
-	return Ptr{o, zero64}
+type vfsHandle struct {
+	f      *vfsFile
+	pos    int64
+	append bool
 }
 
 func (ex *Exec) vfsPath(v Value) string {
@@ -48,18 +44,74 @@ func (ex *Exec) vfsNotExist() Value {
 	return ex.vfsErr
 }
 
+func (ex *Exec) vfsNew(name string) *vfsFile {
+	if ex.vfs == nil {
+		ex.vfs = map[string]*vfsFile{}
+	}
+	f := &vfsFile{obj: ex.newObject(vfsCap, "vfs:"+name)}
+	ex.vfs[name] = f
+	return f
+}
+
+func (ex *Exec) vfsWriteAt(f *vfsFile, off int64, p Ptr, n int64) {
+	if off+n > vfsCap {
+		panic(pathEnd{stOutOfModel, "file larger than the in-memory file system's capacity"})
+	}
+	if n > 0 {
+		ex.memmove(Ptr{f.obj, c64(off)}, p, n)
+	}
+	if off+n > f.n {
+		f.n = off + n
+	}
+}
+
+func (ex *Exec) vfsTruncate(f *vfsFile, size int64) {
+	if size < f.n {
+		// zero the cut-off tail (a mapping of the file reads zeros there)
+		z := ex.newObject(f.n-size, "vfs-zero")
+		ex.memmove(Ptr{f.obj, c64(size)}, Ptr{z, zero64}, f.n-size)
+	}
+	f.n = size
+}
+
+func (ex *Exec) vfsOpen(f *vfsFile, appendMode bool) Value {
+	o := ex.newObject(64, "vfs-handle")
+	if ex.vfsH == nil {
+		ex.vfsH = map[*Object]*vfsHandle{}
+	}
+	ex.vfsH[o] = &vfsHandle{f: f, append: appendMode}
+	return Ptr{o, zero64}
+}
+
+func (ex *Exec) vfsHandleOf(v Value) *vfsHandle {
+	p, ok := v.(Ptr)
+	if !ok || p.obj == nil {
+		return nil
+	}
+	return ex.vfsH[p.obj]
+}
+
+func (ex *Exec) vfsStat(f *vfsFile) Value {
+	op := ex.prog.byPath["os"]
+	if op == nil {
+		panic(pathEnd{stOutOfModel, "package os not loaded"})
+	}
+	named := op.Type("fileStat").Type()
+	o := ex.newObject(256, "vfs-stat")
+	ex.storeNum(Ptr{o, zero64}, 8, c64(f.n))
+	return Iface{t: types.NewPointer(named), v: Ptr{o, zero64}}
+}
+
 func init() {
 	reg(func(ex *Exec, fn *ssa.Function, args []Value, caller *frame) Value {
 		name := ex.vfsPath(args[0])
 		p, n := sliceBytes(ex, args[1])
-		o := ex.newObject(n+1, "vfs:"+name)
-		if n > 0 {
-			ex.memmove(Ptr{o, zero64}, p, n)
+		f := ex.vfs[name]
+		if f == nil {
+			f = ex.vfsNew(name)
 		}
-		if ex.vfs == nil {
-			ex.vfs = map[string]vfsFile{}
-		}
-		ex.vfs[name] = vfsFile{o, n}
+		ex.vfsTruncate(f, 0)
+		ex.vfsWriteAt(f, 0, p, n)
 		return Iface{}
 	}, "io/ioutil.WriteFile", "os.WriteFile")
 	reg(func(ex *Exec, fn *ssa.Function, args []Value, caller *frame) Value {
@@ -105,50 +157,106 @@ func init() {
 		b, ok2 := ex.vfsErr.(Iface).v.(Ptr)
 		return mkBool(ok1 && ok2 && a.obj == b.obj)
 	}, "os.IsNotExist")
-	// handles: OpenFile(create/truncate/append), Write, Close
+	// handles
 	reg(func(ex *Exec, fn *ssa.Function, args []Value, caller *frame) Value {
 		name := ex.vfsPath(args[0])
 		flag := int64(ex.concretize(args[1].(*Term)))
-		const oCreate, oTrunc = 0x40, 0x200
-		if ex.vfs == nil {
-			ex.vfs = map[string]vfsFile{}
-		}
-		_, ok := ex.vfs[name]
+		const oCreate, oTrunc, oAppend = 0x40, 0x200, 0x400
+		f, ok := ex.vfs[name]
 		if !ok && flag&oCreate == 0 {
 			return Tuple{nilPtr(), ex.vfsNotExist()}
 		}
-		if !ok || flag&oTrunc != 0 {
-			ex.vfs[name] = vfsFile{ex.newObject(1, "vfs:"+name), 0}
+		if !ok {
+			f = ex.vfsNew(name)
+		} else if flag&oTrunc != 0 {
+			ex.vfsTruncate(f, 0)
 		}
-		return Tuple{ex.vfsOpen(name), Iface{}}
+		return Tuple{ex.vfsOpen(f, flag&oAppend != 0), Iface{}}
 	}, "os.OpenFile")
 	reg(func(ex *Exec, fn *ssa.Function, args []Value, caller *frame) Value {
 		name := ex.vfsPath(args[0])
-		if _, ok := ex.vfs[name]; !ok {
+		f := ex.vfs[name]
+		if f == nil {
+			f = ex.vfsNew(name)
+		}
+		ex.vfsTruncate(f, 0)
+		return Tuple{ex.vfsOpen(f, false), Iface{}}
+	}, "os.Create")
+	reg(func(ex *Exec, fn *ssa.Function, args []Value, caller *frame) Value {
+		name := ex.vfsPath(args[0])
+		f, ok := ex.vfs[name]
+		if !ok {
 			return Tuple{nilPtr(), ex.vfsNotExist()}
 		}
-		return Tuple{ex.vfsOpen(name), Iface{}}
+		return Tuple{ex.vfsOpen(f, false), Iface{}}
 	}, "os.Open")
 	reg(func(ex *Exec, fn *ssa.Function, args []Value, caller *frame) Value {
-		name, ok := ex.vfsHandlePath(args[0])
+		h := ex.vfsHandleOf(args[0])
 		p, n := sliceBytes(ex, args[1])
-		if !ok {
+		if h == nil {
 			panic(pathEnd{stOutOfModel, "write to a file handle outside the in-memory file system"})
 		}
-		f := ex.vfs[name]
-		o := ex.newObject(f.n+n+1, "vfs:"+name)
-		if f.n > 0 {
-			ex.memmove(Ptr{o, zero64}, Ptr{f.obj, zero64}, f.n)
+		off := h.pos
+		if h.append {
+			off = h.f.n
 		}
-		if n > 0 {
-			ex.memmove(Ptr{o, c64(f.n)}, p, n)
-		}
-		ex.vfs[name] = vfsFile{o, f.n + n}
+		ex.vfsWriteAt(h.f, off, p, n)
+		h.pos = off + n
 		return Tuple{c64(n), Iface{}}
 	}, "(*os.File).Write")
 	reg(func(ex *Exec, fn *ssa.Function, args []Value, caller *frame) Value {
+		h := ex.vfsHandleOf(args[0])
+		if h == nil {
+			panic(pathEnd{stOutOfModel, "truncate of a file handle outside the in-memory file system"})
+		}
+		ex.vfsTruncate(h.f, int64(ex.concretize(args[1].(*Term))))
+		return Iface{}
+	}, "(*os.File).Truncate")
+	reg(func(ex *Exec, fn *ssa.Function, args []Value, caller *frame) Value {
 		return Iface{}
 	}, "(*os.File).Close")
+	reg(func(ex *Exec, fn *ssa.Function, args []Value, caller *frame) Value {
+		h := ex.vfsHandleOf(args[0])
+		if h == nil {
+			return c64(-1)
+		}
+		return c64(int64(args[0].(Ptr).obj.id))
+	}, "(*os.File).Fd")
+	reg(func(ex *Exec, fn *ssa.Function, args []Value, caller *frame) Value {
+		h := ex.vfsHandleOf(args[0])
+		if h == nil {
+			panic(pathEnd{stOutOfModel, "stat of a file handle outside the in-memory file system"})
+		}
+		return Tuple{ex.vfsStat(h.f), Iface{}}
+	}, "(*os.File).Stat")
+	reg(func(ex *Exec, fn *ssa.Function, args []Value, caller *frame) Value {
+		name := ex.vfsPath(args[0])
+		f, ok := ex.vfs[name]
+		if !ok {
+			return Tuple{Iface{}, ex.vfsNotExist()}
+		}
+		return Tuple{ex.vfsStat(f), Iface{}}
+	}, "os.Stat")
+	reg(func(ex *Exec, fn *ssa.Function, args []Value, caller *frame) Value {
+		return ex.loadNum(args[0].(Ptr), 8)
+	}, "(*os.fileStat).Size")
+	// syscall.Mmap(fd, offset, length, prot, flags): a view of the file's bytes
+	reg(func(ex *Exec, fn *ssa.Function, args []Value, caller *frame) Value {
+		fd := int(ex.concretize(args[0].(*Term)))
+		n := int64(ex.concretize(args[2].(*Term)))
+		for o, h := range ex.vfsH {
+			if o.id == fd {
+				if n > vfsCap {
+					panic(pathEnd{stOutOfModel, "mapping larger than the in-memory file system's capacity"})
+				}
+				return Tuple{Slice{Ptr{h.f.obj, zero64}, c64(n), c64(n)}, Iface{}}
+			}
+		}
+		panic(pathEnd{stOutOfModel, "mmap of a descriptor outside the in-memory file system"})
+	}, "syscall.Mmap")
+	reg(func(ex *Exec, fn *ssa.Function, args []Value, caller *frame) Value {
+		return Iface{}
+	}, "syscall.Munmap")
 	// escape-analysis hint (pointer ^ 0): identity
 	reg(func(ex *Exec, fn *ssa.Function, args []Value, caller *frame) Value {
 		return args[0]
